@@ -197,8 +197,37 @@ C12Call ==
                   /\ Near(b.t[Imsaak], b.t[Fajr] - (IF Ev.p.imi = 0 THEN DefImsaak ELSE Ev.p.imi), 1)
     /\ Step
 
+(* CONFORMANCE (bin/conform; not a listed property): the whole pipeline function of PrayerDayDefs, applied to the raw
+   conventional hours recorded for the site, the substitute latitude and the neighbouring dates, predicts the complete
+   result of a call under any policy / interval / offset choice: validity, extreme flags, and times within 3 s. *)
+GoodBase(n) == Ev.nb[n].t[Fajr] >= 0 /\ Ev.nb[n].t[Isha] >= 0
+GoodIm(n) == Ev.nb[n].t[Imsaak] >= 0 /\ Ev.nb[n].t[Isha] >= 0
+ClosestOf(G(_)) ==
+    IF \E n \in 1..Len(Ev.nb) : G(n)
+    THEN LET n == CHOOSE n \in 1..Len(Ev.nb) :
+                     /\ G(n)
+                     /\ \A q \in 1..Len(Ev.nb) : G(q) =>
+                           (Abs(Ev.nb[n].o) < Abs(Ev.nb[q].o) \/ (Abs(Ev.nb[n].o) = Abs(Ev.nb[q].o) /\ Ev.nb[n].o <= Ev.nb[q].o))
+         IN n
+    ELSE 0
+PipeEnv ==
+    LET nbB == ClosestOf(GoodBase)  nbI == ClosestOf(GoodIm) IN
+    [here |-> VarsOf(Ev.here),
+     nl |-> IF Len(Ev.nl) = 7 THEN VarsOf(Ev.nl) ELSE VarsOf(Ev.here),
+     good |-> [var \in {"base", "im"} |->
+                 IF var = "base" THEN (IF nbB = 0 THEN NoGood ELSE Good(TabOf(Ev.nb[nbB].t, Fajr)))
+                 ELSE (IF nbI = 0 THEN NoGood ELSE Good(TabOf(Ev.nb[nbI].t, Imsaak)))]]
+PipeCall ==
+    /\ Is("pipe") /\ WellFormed(Ev.b) /\ Ev.p.rnd = 0
+    /\ LET P == PofEv(Ev)
+           res == Result(P, PipeEnv) IN
+       \A p \in P7 :
+          /\ res[p].ok = Ok(Ev.b, p)
+          /\ res[p].ok => Near(Ev.b.t[p], res[p].t, 3) /\ (res[p].x <=> Flagged(Ev.b, p))
+    /\ Step
+
 TraceInit == l = Start
-TraceNext == C05Call \/ C07Call \/ C08Call \/ C08KnownF2 \/ C09Call \/ C10Call \/ C11Call \/ C12Call
+TraceNext == PipeCall \/ C05Call \/ C07Call \/ C08Call \/ C08KnownF2 \/ C09Call \/ C10Call \/ C11Call \/ C12Call
 TraceSpec == TraceInit /\ [][TraceNext]_l
 
 TraceAccepted ==
